@@ -4,7 +4,7 @@ use rusty_common::*;
 use rusty_parser::{AsBareName, Expression, ExpressionPos, Operator, TypeQualifier, UnaryOperator};
 use rusty_variant::Variant;
 
-use crate::core::{LintError, LintErrorPos};
+use crate::core::{CastVariant, LintError, LintErrorPos};
 
 /// A lookup map of resolved constant values.
 pub trait ConstLookup {
@@ -104,10 +104,16 @@ where
                     Operator::Plus => v_left.plus(v_right),
                     Operator::Minus => v_left.minus(v_right),
                     Operator::Multiply => v_left.multiply(v_right),
-                    Operator::Divide => v_left.divide(v_right),
+                    Operator::Divide => {
+                        return divide(v_left, v_right).map_err(|e| e.at(right));
+                    }
                     Operator::Modulo => v_left.modulo(v_right),
-                    Operator::And => v_left.and(v_right),
-                    Operator::Or => v_left.or(v_right),
+                    Operator::And => {
+                        return logical(v_left, v_right, Variant::and).map_err(|e| e.at(right));
+                    }
+                    Operator::Or => {
+                        return logical(v_left, v_right, Variant::or).map_err(|e| e.at(right));
+                    }
                 })
                 .map_err(LintError::from)
                 .map_err(|e| e.at(right))
@@ -128,6 +134,31 @@ where
             | Expression::BuiltInFunctionCall(_, _) => Err(LintError::InvalidConstant.at_pos(*pos)),
         }
     }
+}
+
+/// Divides two values the way the generated code does: the quotient is converted
+/// to the floating point type the linter resolves for a division
+/// (`DOUBLE` if an operand is a `DOUBLE`, otherwise `SINGLE`).
+fn divide(left: Variant, right: Variant) -> Result<Variant, LintError> {
+    let quotient_type =
+        if matches!(left, Variant::VDouble(_)) || matches!(right, Variant::VDouble(_)) {
+            TypeQualifier::HashDouble
+        } else {
+            TypeQualifier::BangSingle
+        };
+    left.divide(right)?.cast(quotient_type)
+}
+
+/// Applies `AND` / `OR` the way the interpreter does: both operands are converted
+/// to `INTEGER` first.
+fn logical(
+    left: Variant,
+    right: Variant,
+    op: fn(Variant, Variant) -> Result<Variant, rusty_variant::VariantError>,
+) -> Result<Variant, LintError> {
+    let left = left.cast(TypeQualifier::PercentInteger)?;
+    let right = right.cast(TypeQualifier::PercentInteger)?;
+    Ok(op(left, right)?)
 }
 
 impl<S> ConstEvaluator<Box<ExpressionPos>> for S
